@@ -2,7 +2,8 @@
 docstring (as sharpened by property C03). Produces tuple ASTs:
   ("c", int|float) ("v", name) ("neg", e) ("!", e) ("sgn", e) (op, l, r) for op in + - * / ^ =
 All binary chains are left-associative, as the EBNF repetition { op X }* prescribes.
-`muldiv_right=True` nests * / chains to the right; it exists ONLY to recognise known finding F-C03-1.
+`muldiv_right=True` nests explicit products to the right (a quotient still ends at its divisor); it exists ONLY to recognise
+known finding F-C03-1 (shape of product chains; values are unaffected).
 Nothing here imports mathy_core."""
 from fractions import Fraction
 import math
@@ -101,9 +102,13 @@ class RP:
     def mul(self):
         e = self.exp()
         if self.mr:
-            if self.pk() in ("*", "/"):
+            # the implementation's convention (known finding F-C03-1, narrowed): a product nests to the right, a quotient
+            # ends at its divisor - x * y * z is x * (y * z), 8 / 4 * 2 is (8 / 4) * 2
+            while self.pk() in ("*", "/"):
                 op = self.nx()[0]
-                return (op, e, self.mul())
+                if op == "*":
+                    return ("*", e, self.mul())
+                e = ("/", e, self.exp())
             return e
         while self.pk() in ("*", "/"):
             op = self.nx()[0]
